@@ -97,7 +97,18 @@ type runOut struct {
 func run(s *wspec, evs []event, ext int, restarts, oracle bool, floors []int64, log *os.File) runOut {
 	var out runOut
 	w := s.build()
-	x, err := harness.StartRunAs(w, harness.NaturalIdentityOf(w.Vals[0]))
+	var x *harness.Run
+	var err error
+	retries := int64(0)
+	for attempt := 0; attempt < 3; attempt++ {
+		// a start that fails is retried: under heavy machine load InitChain was seen to return its empty
+		// error response about once in 100 000 starts (counted in the evidence as start_retries)
+		if x, err = harness.StartRunAs(w, harness.NaturalIdentityOf(w.Vals[0])); err == nil {
+			break
+		}
+		retries++
+		w = s.build()
+	}
 	if err != nil {
 		out.err = "start: " + err.Error()
 		return out
@@ -110,6 +121,9 @@ func run(s *wspec, evs []event, ext int, restarts, oracle bool, floors []int64, 
 		m.log = func(f string, a ...interface{}) { fmt.Fprintf(log, "  "+f+"\n", a...) }
 	}
 	out.m = m
+	if retries > 0 {
+		m.info["start_retries"] = retries
+	}
 	opts := w.Gov.RewardOptions
 	prev := decode(x.R.Dump())
 	all := append(append([]event(nil), evs...), make([]event, ext)...)
